@@ -5,19 +5,82 @@ import json, os
 V = os.path.dirname(os.path.dirname(os.path.abspath(__file__)))
 ALL = ["C%02d" % i for i in range(1, 21)]
 
+# Properties whose slice is built, green on the unchanged tree and integrated by the coordinator.
+READY = ["C17", "C11"]
+
+COMMON_NOTE = ("Trusted: Coq 8.16.1 kernel + vm_compute (no native_compute, no extraction); the hand-written Gallina model is tied to the "
+               "Go code only by the differential correspondence run (Go harness on /repo's working tree, model and spec evaluated inside Coq on the same cases); "
+               "Go runtime, RocksDB, miekg/dns and coredns are not modelled below the interfaces named in DESIGN.md section 8. ")
+
 # property -> (technique, level text, level note, design ref)
 CLAIMED = {
+ "C01": ("Coq refinement theorems (serve over the row-level store = declarative spec_response over declared records) + per-case compile/serve/spec correspondence in Coq (vm_compute) against three real servers",
+         "Machine-checked theorems about an executable model of the lookup and serve path (v1 reader, v2 closest-key reader, handler) relating it to a short declarative specification over the declared records; the model runs over the real compiled database dumps and is compared with the responses of real CDB / RocksDB-v1 / RocksDB-v2 servers on generated data files and queries, the spec with the same responses.",
+         COMMON_NOTE + "Weighted address choice is compared as a sub-multiset of the right size (C11 owns the draw); parts not yet proved carry the suffix _partial in Properties/C01.v.", "DESIGN.md section 6 C01"),
+ "C02": ("Coq simulation lemmas between the v1 and v2 reader models (closest-key skipping, per-request cache transparency) + pairwise comparison of three real backends on generated files",
+         "Theorems relate the v2 (sorted, closest-key) reader model to the label-by-label reader model; the check compares the projected responses of real CDB, RocksDB-v1 and RocksDB-v2 servers pairwise for every generated query and ties both reader models to the code by correspondence.",
+         COMMON_NOTE, "DESIGN.md section 6 C02"),
+ "C03": ("Coq theorems: RocksDB range-point lookup and CDB prefix-set lookup refine longest-prefix match; map choice = exact then nearest wildcard; correspondence against Rearranger and three real backends",
+         "Machine-checked refinement of the rearranger sweep (sort, stack, squash) + predecessor search and of the CDB descending prefix walk to an independent longest-prefix-match function over N < 2^128, for all laminar subnet sets and all masked clients; models tied to the real Rearranger and real CDB/RocksDB lookups on critical-set clients.",
+         COMMON_NOTE + "sort.Slice enters as an abstract sorted permutation; subnets ::/N with 1<=N<=79 are excluded by wf_subnets (known finding F20).", "DESIGN.md section 6 C03"),
+ "C04": ("Corollary of C01 (spec_response depends only on the client's view) + metamorphic foreign-location edits on three real backends",
+         "Non-interference theorem over the serve model and spec (records of other locations cannot influence a response) plus a metamorphic differential run: data file vs. the same file with foreign-location edits must give identical responses on all three real backends.",
+         COMMON_NOTE, "DESIGN.md section 6 C04"),
+ "C05": ("Coq invariants over an interleaving model of queries and reload steps (all schedules); model schedules replayed on the real handler through verif yield points with generation-stamped databases",
+         "Small-step model of reloadMu, the served pointer, per-backend content generations and in-flight queries; visibility after return, failed reload = no-op, monotonicity and single-generation proved by invariant for all schedules (refuted with witnesses where the code really violates them: F5, F23, F24); schedules are replayed against the real FBDNSDB.",
+         COMMON_NOTE + "Go memory model and scheduler outside the yield points are not modelled (C14).", "DESIGN.md section 6 C05"),
+ "C06": ("Coq invariant over unbounded operation histories of the refcount/reload state machine; histories replayed on real db.DB / FBDNSDB with an instrumented backend",
+         "State machine of wrappers, refcounts, destroyable flags and the reload goroutine/timeout handshake; no use after close, no double close and no leak proved for every history by induction; event logs of an instrumented DBI driven through the real code are compared with the model.",
+         COMMON_NOTE, "DESIGN.md section 6 C06"),
+ "C07": ("Coq theorems: builder, batch and CDB pipelines are permutation-invariant and lossless (parametric in the codec); dumps of real compilations under a grid of settings vs. the line-by-line codec",
+         "Pipelines modelled parametric in the codec; losslessness and setting-independence proved for every stream order, batch order and sorted permutation; real compilations under many settings are dumped and compared with each other, with the implementation's own codec output and with the pipeline model.",
+         COMMON_NOTE + "RocksDB ingest / WriteBatch atomicity trusted.", "DESIGN.md section 6 C07"),
+ "C08": ("Coq multiset algebra: apply_diff (compile A) d = compile B for every line diff in any order; all-or-nothing on failure; real ApplyDiff vs fresh compile dumps",
+         "apply_diff modelled over the batch model; equality with recompilation, chains and failure atomicity proved; real rdb.ApplyDiff runs on generated file pairs and chains are dumped and compared with fresh compiles and with the model.",
+         COMMON_NOTE, "DESIGN.md section 6 C08"),
+ "C09": ("Coq round-trip theorems for the text codec (parse/marshal/convert) built on C17; preprocessing equivalence; real DecodeLn/MarshalText/ConvertLn and preprocess+compile dumps",
+         "Per-type round trip marshal . parse preserves the compiled key/values and is idempotent, for all well-formed lines of the modelled types; preprocessing preserves the compiled database; real codec and preprocessor run on generated lines of all 17 types and files.",
+         COMMON_NOTE + "Types outside modelled_type are checked by the differential run only; open findings F8, F12, F26, F27.", "DESIGN.md section 6 C09"),
+ "C10": ("Coq theorems on OPT/ECS echo and scope (corollary of C03's LPM theorem); three real handlers with generated OPT/ECS queries",
+         "ECS location, scope arithmetic (uint8, -96, defaults) and OPT/ECS attachment per response path modelled and proved against the statement; real handlers on CDB/RocksDB-v1/v2 queried with generated ECS options; scope checked against an independent LPM oracle.",
+         COMMON_NOTE + "Open finding F21 (BADVERS reply built by coredns has no ECS).", "DESIGN.md section 6 C10"),
+ "C11": ("Coq invariant (slots hold the top-k keys) for every key order, candidate list and max; Coquelicot integral identity for proportionality (partial); scripted-source differential run + end-to-end bounded/sound checks",
+         "Wrs.Add/record modelled over an abstract key order; bounded, sound, exact count and zero-weight clauses proved for all inputs (F18 corner draws refuted with witnesses and excluded by hypothesis); proportionality as a real-analysis identity (partial: probability reading assumed); real Wrs under scripted draws and real servers compared with model and spec.",
+         COMMON_NOTE + "C11_proportional_partial depends on the standard library's real-number/classical axioms (named in the evidence).", "DESIGN.md section 6 C11"),
+ "C12": ("Coq invariant: every cache entry equals serve_core of the current generation; interleaving model shared with C05; cache-on vs cache-off real handlers on the same histories and schedules",
+         "Cache wrapper modelled around an abstract serve_core; cached = uncached for all sequential histories; no stale answer after a completed reload for all schedules outside the insert-after-purge window (F6, refuted with a witness schedule); real handlers compared.",
+         COMMON_NOTE, "DESIGN.md section 6 C12"),
+ "C13": ("Coq theorem: the serve model (checked slice accessors = Go panics) never yields Panic on well-formed stores and wire-valid queries; reply-shape theorems; fuzzed wire-valid messages on three real backends",
+         "Every index/slice expression of the serve path is modelled with an explicit Panic outcome; absence of Panic and reply shape (ID, question, QR, BADVERS) proved for all queries; generated wire-valid messages run against real handlers with panic recording.",
+         COMMON_NOTE + "Packing/truncation by miekg/coredns trusted; open finding F22 (BADVERS reply without question).", "DESIGN.md section 6 C13"),
+ "C14": ("Coq lockset theorem over an access table REGENERATED from the Go source on every run (translator gotab); iterator-pool interleaving model; race-detector stress harness for witnesses",
+         "Every pair of conflicting accesses of tracked shared fields by concurrent roles holds a common lock, is channel-ordered or is a listed exception - proved by vm_compute over the regenerated finite table; pool conservation and progress by invariant; a -race stress run supplies concrete schedules.",
+         COMMON_NOTE + "Partial by nature: lockset discipline is sufficient not necessary; Go memory model, cgo/RocksDB internals not modelled.", "DESIGN.md section 6 C14"),
+ "C15": ("Coq refinement of the value-list codec and batch execution to a map of lists, for all histories; real RocksDB histories vs model vs spec",
+         "append/del/chunk codec and execute_batch modelled as written; refinement to key -> list of values, batch = adds then dels, failed batch = no-op proved for every history and every sorted permutation; histories run on a real RocksDB directory.",
+         COMMON_NOTE + "RocksDB Get/WriteBatch/backup engine trusted.", "DESIGN.md section 6 C15"),
+ "C16": ("Coq linear-probing invariant for any hash function: lookups return exactly the written values in order; dump/make round trip; real writer/reader/Dump/Make",
+         "CDB writer, reader (loop counter), dump and make modelled parametric in the hash; exact lookup proved for all pair lists under fits32 and ANY hash (collisions, wrap-around); real files compared byte-wise and lookup-wise.",
+         COMMON_NOTE + "That writer and reader use the same hash in Go is established by the differential run (keys of every length 0..200).", "DESIGN.md section 6 C16"),
  "C17": ("Coq theorems (round trip, separator freedom) over a Gallina model of Bquote/Bunquote + strconv; differential correspondence run impl vs model vs spec inside Coq (vm_compute)",
-         "Machine-checked proof for all byte strings and every IsPrint oracle that unquote(quote b) = b and that the quoted form has no ',' ':' or newline, about a hand-written executable model of quote.go and the strconv/utf8 functions it calls; the model is tied to the code on every run by evaluating it in Coq on the strings the real Bquote/Bunquote were run on (all strings of length <= 1 or <= 2, structured and malformed streams).",
-         "Trusted: Coq kernel + vm_compute; hand model of strconv.Quote/UnquoteChar/utf8 (go1.23.5) checked only by the differential run; strconv.IsPrint is an oracle parameter; Go slice aliasing not modelled.",
-         "DESIGN.md section 6 C17"),
+         "Machine-checked proof for all byte strings and every IsPrint oracle that unquote(quote b) = b and that the quoted form has no ',' ':' or newline, about a hand-written executable model of quote.go and the strconv/utf8 functions it calls; the model is tied to the code on every run by evaluating it in Coq on the strings the real Bquote/Bunquote were run on.",
+         COMMON_NOTE + "strconv.IsPrint is an oracle parameter; Go slice aliasing not modelled.", "DESIGN.md section 6 C17"),
+ "C18": ("Coq theorems: accepted lists are sorted/unique, decode to the declared values under an independent RFC 9460 decoder, mandatory checks, text round trip outside F8; real FromText/ToWire/ToText + miekg decoding",
+         "svcb FromText/ToWire/ToText modelled with library calls as oracles; conformance against an independent Coq decoder proved for all accepted lists; real code run on generated lists and cross-decoded by miekg/dns.",
+         COMMON_NOTE + "Open finding F8 (v4-mapped ipv6hint prints as dotted quad).", "DESIGN.md section 6 C18"),
+ "C19": ("Coq theorems: window = spec set for every timed history; counters as a function of the response class, once each; increments commute; real windows in real time + recording Stats/Logger on real handlers",
+         "Sliding window, Stats.Get and the handler's counter/log calls modelled; exactness for all timed histories and counter laws proved; real windows with short lifetimes and real handlers with recording Stats/Logger compared.",
+         COMMON_NOTE + "Real-time runs keep events 150 ms away from expiry instants.", "DESIGN.md section 6 C19"),
+ "C20": ("Coq composition lemmas for the front-handler chain over an abstract database handler; real fbserver on loopback UDP/TCP vs in-process handler",
+         "serve_mux guard, max-answer injection, ANY refusal and whoami modelled; transparency, HINFO-only and no-question clauses proved for all queries and configurations; truncation over an abstract size function (partial); real server exchanges compared with the bare handler.",
+         COMMON_NOTE + "Sockets, miekg server loop and packing are runtime: transport equality is differential only.", "DESIGN.md section 6 C20"),
 }
-NOT_YET = "not yet built in this round of work (claimed in DESIGN.md; machinery pending)"
+NOT_YET = "slice not yet integrated in this round of work (claimed in DESIGN.md; machinery being built)"
 
 def main():
     checks = []
     for pid in ALL:
-        if pid not in CLAIMED:
+        if pid not in READY:
             continue
         tech, text, note, ref = CLAIMED[pid]
         checks.append({
@@ -46,11 +109,11 @@ def main():
             "add_only": True,
         },
         "engines": [{"name": "coq-diff", "path": "/verif/check",
-                     "serves_properties": sorted(CLAIMED.keys()),
+                     "serves_properties": sorted(READY),
                      "kind_free_text": "Coq 8.16.1 development (models, specs, proofs) + Go differential harness + vm_compute evaluation of model and spec on the harness cases"}],
         "checks": checks,
         "notes": "See DESIGN.md. Every check rebuilds the Coq development and the Go harness against /repo's working tree.",
-        "not_applicable": [{"property_id": p, "reason": NOT_YET} for p in ALL if p not in CLAIMED],
+        "not_applicable": [{"property_id": p, "reason": NOT_YET} for p in ALL if p not in READY],
     }
     json.dump(m, open(os.path.join(V, "MANIFEST.json"), "w"), indent=1)
 
